@@ -269,3 +269,28 @@ func VerifPrimaryWorld(n0 int, wal bool) (*Store, *DB, func() []int) {
 // VerifTreeDigest / VerifSameTree expose the directory comparison helpers.
 func VerifTreeDigest(dir string) map[string][]byte { return verifTreeDigest(dir) }
 func VerifSameTree(a, b map[string][]byte) bool   { return verifSameTree(a, b) }
+
+// VerifPrimaryChain: a primary with database "db" (1 page, position 41) on
+// which k rollback-journal transactions were committed through the real code:
+// transaction files 42..41+k exist. Returns the position after each step
+// (index 0 = position 41).
+func VerifPrimaryChain(k int) (*Store, *DB, []ltx.Pos) {
+	ctx := context.Background()
+	w := verifNewStore(true)
+	w.verifOpenDB(verifImage("img0", 1, false), 41)
+	db := w.db
+	chain := []ltx.Pos{db.Pos()}
+	for i := 0; i < k; i++ {
+		jf, err := db.CreateJournal()
+		must(err)
+		must(db.WriteJournalAt(ctx, jf, verifJournalHeader(0, 0, 1), 0, 1))
+		dbf, err := db.OpenDatabase(ctx)
+		must(err)
+		p := rt.Bytes("chain", verifP)
+		verifHeaderPage(p, 1, false)
+		must(db.WriteDatabaseAt(ctx, dbf, p, 0, 1))
+		must(db.RemoveJournal(ctx))
+		chain = append(chain, db.Pos())
+	}
+	return w.store, db, chain
+}
